@@ -42,6 +42,45 @@ package dig
 //@ pure func isInvoker(f Ref) Bool = f == defaultInvoker || f == dryInvoker
 
 // ---------------------------------------------------------------------------
+// syntactic obligations: who may write what, and through which doors user code
+// is reached. Each is an enumeration over the SSA of the whole tree; "<=" means
+// every occurrence lies in one of the listed functions.
+
+//@ scan[C02:called-flag-write-sites,C07:called-flag-write-sites] stores constructorNode.called <= (*dig.constructorNode).Call
+//@ scan[C02:decorator-state-write-sites,C07:decorator-state-write-sites,C12:decorator-state-write-sites] stores decoratorNode.state <= (*dig.decoratorNode).Call, (*dig.decoratorNode).Call$1
+//@ scan[C03:user-functions-run-only-in-defaultInvoker,C17:user-functions-run-only-in-defaultInvoker] calls (reflect.Value).Call <= dig.defaultInvoker
+//@ scan[C03:no-CallSlice,C17:no-CallSlice] calls (reflect.Value).CallSlice <= none
+//@ scan[C03:invoker-call-sites,C17:invoker-call-sites] calls-of-type dig.invokerFn <= (*dig.Scope).Invoke, (*dig.constructorNode).Call, (*dig.decoratorNode).Call
+//@ scan[C03:callback-call-sites,C20:callback-call-sites] calls-of-type dig.Callback <= (*dig.constructorNode).Call$1, (*dig.decoratorNode).Call$2
+//@ scan[C03:provider-call-sites,C02:provider-call-sites] invokes dig.provider.Call <= (dig.paramGroupedSlice).callGroupProviders, (dig.paramSingle).Build
+//@ scan[C03:decorator-call-sites,C02:decorator-call-sites,C12:decorator-call-sites] invokes dig.decorator.Call <= (dig.paramGroupedSlice).callGroupDecorators, (dig.paramSingle).buildWithDecorators
+//@ scan[C03:no-direct-constructor-calls] calls (*dig.constructorNode).Call <= none
+//@ scan[C03:no-direct-decorator-calls] calls (*dig.decoratorNode).Call <= none
+//@ scan[C17:invoker-write-sites] stores Scope.invokerFn <= (*dig.Scope).Scope, (dig.dryRunOption).applyOption, dig.newScope
+//@ scan[C17:invoker-read-sites] loads Scope.invokerFn <= (*dig.Scope).Invoke, (*dig.Scope).Scope, (*dig.Scope).invoker
+//@ scan[C13:recover-sites] builtin recover <= (*dig.Scope).Invoke$1, (*dig.constructorNode).Call$2, (*dig.decoratorNode).Call$3
+//@ scan[C13:cycle-error-construction-sites,C05:cycle-error-construction-sites] allocs dig.errCycleDetected <= (*dig.Scope).cycleDetectedError, (dig.errCycleDetected).Error, dig.IsCycleDetected
+//@ scan[C13:panic-error-construction-sites] allocs dig.PanicError <= (*dig.Scope).Invoke$1, (*dig.constructorNode).Call$2, (*dig.decoratorNode).Call$3, (dig.PanicError).Format
+//@ scan[C13:unwrap-method-set] methods Unwrap == dig.errArgumentsFailed, dig.errConstructorFailed, dig.errInvalidInput, dig.errMissingDependencies, dig.errParamGroupFailed, dig.errParamSingleFailed, dig.errProvide
+//@ scan[C07:value-cache-write-sites,C01:value-cache-write-sites] mapwrites Scope.values <= (*dig.Scope).setValue
+//@ scan[C07:group-cache-write-sites,C10:group-cache-write-sites] mapwrites Scope.groups <= (*dig.Scope).submitGroupedValue
+//@ scan[C07:decorated-value-write-sites,C12:decorated-value-write-sites] mapwrites Scope.decoratedValues <= (*dig.Scope).setDecoratedValue
+//@ scan[C07:decorated-group-write-sites,C12:decorated-group-write-sites] mapwrites Scope.decoratedGroups <= (*dig.Scope).submitDecoratedGroupedValue
+//@ scan[C07:value-writers,C01:value-writers] invokes dig.containerWriter.setValue <= (dig.resultSingle).Extract, (*dig.stagingContainerWriter).Commit
+//@ scan[C07:group-writers,C10:group-writers] invokes dig.containerWriter.submitGroupedValue <= (dig.resultGrouped).Extract, (*dig.stagingContainerWriter).Commit
+//@ scan[C07:decorated-value-writers,C12:decorated-value-writers] invokes dig.containerWriter.setDecoratedValue <= (dig.resultSingle).Extract
+//@ scan[C07:decorated-group-writers,C12:decorated-group-writers] invokes dig.containerWriter.submitDecoratedGroupedValue <= (dig.resultGrouped).Extract
+//@ scan[C06:provider-registry-write-sites,C09:provider-registry-write-sites] mapwrites Scope.providers <= (*dig.Scope).provide
+//@ scan[C06:decorator-registry-write-sites,C12:decorator-registry-write-sites] mapwrites Scope.decorators <= (*dig.Scope).Decorate
+//@ scan[C06:node-list-write-sites] stores Scope.nodes <= (*dig.Scope).provide
+//@ scan[C08:scope-tree-write-sites] stores Scope.parentScope <= (*dig.Scope).Scope
+//@ scan[C08:scope-children-write-sites] stores Scope.childScopes <= (*dig.Scope).Scope
+//@ scan[C08:constructor-home-write-sites] stores constructorNode.s <= dig.newConstructorNode
+//@ scan[C08:constructor-origin-write-sites] stores constructorNode.origS <= dig.newConstructorNode
+//@ scan[C05:graph-node-write-sites,C16:graph-node-write-sites] stores graphHolder.nodes <= (*dig.Scope).Scope, (*dig.graphHolder).NewNode, (*dig.graphHolder).Rollback
+//@ scan[C05:verified-flag-write-sites,C16:verified-flag-write-sites] stores Scope.isVerifiedAcyclic <= (*dig.Scope).Invoke, (*dig.Scope).provide
+
+// ---------------------------------------------------------------------------
 // type invariants: assumed whenever a non-nil pointer of the type is read,
 // proved where objects of the type are allocated and where the fields they
 // mention are written.
@@ -195,6 +234,7 @@ package dig
 //@        && $evKind[at(BuildList_1, $ev) + 2] == evSince() && $evKind[at(BuildList_1, $ev) + 3] == evCallback()
 //@   ensures[C20:since-start-of-run] ranWithCb ==> $evTime[at(BuildList_1, $ev) + 2] == $evTime[at(BuildList_1, $ev)]
 //@   ensures[C20:runtime-is-that-duration] ranWithCb ==> $cbInfo[at(BuildList_1, $ncb)].Runtime == $evDur[at(BuildList_1, $ev) + 2]
+//@   site call dig.shallowCheckDependencies #1: assert[C04:direct-deps-checked-in-the-given-scope,C08:direct-deps-checked-in-the-given-scope,C01:direct-deps-checked-in-the-given-scope] $arg0 == c && $arg1 == n.paramList
 //@   site call (dig.paramList).BuildList #1: assert[C08:args-built-in-given-scope] $arg0 == c
 //@   site call (dig.paramList).BuildList #1: assert[C01:builds-own-params] $recv == n.paramList
 //@   site call (*dig.stagingContainerWriter).Commit #1: assert[C08:commit-home,C01:commit-home] is($arg0, ptr(Scope)) && as($arg0, ptr(Scope)) == n.s
@@ -212,9 +252,9 @@ package dig
 //@   let dflt = as(s, ptr(Scope)).invokerFn == defaultInvoker
 //@   ensures[C02:dec-noop-when-called] old(n.state) == decoratorCalled ==> err == nil && unchangedAll() && $nrun == old($nrun) && $ncb == old($ncb) && $ev == old($ev)
 //@   ensures[C02:dec-success-means-called] err == nil ==> n.state == decoratorCalled
-//@   ensures[C07:dec-fail-resets-state] err != nil ==> n.state == decoratorReady
+//@   ensures[C07:dec-fail-resets-state,C12:dec-fail-resets-state,C02:dec-fail-resets-state] err != nil ==> n.state == decoratorReady
 //@   ensures[C07:dec-fail-commits-nothing] reached(BuildList_1) && err != nil ==> sameSince(BuildList_1, map(Scope.values), map(Scope.groups), map(Scope.decoratedGroups))
-//@   onpanic[C07:dec-panic-resets-state] n.state == decoratorReady
+//@   onpanic[C07:dec-panic-resets-state,C12:dec-panic-resets-state,C02:dec-panic-resets-state] n.state == decoratorReady
 //@   onpanic[C07:dec-panic-commits-nothing] reached(BuildList_1) ==> sameSince(BuildList_1, map(Scope.values), map(Scope.groups), map(Scope.decoratedGroups))
 //@   ensures[C03:dec-at-most-one-run] reached(BuildList_1) ==> $nrun <= at(BuildList_1, $nrun) + 1
 //@   ensures[C03:dec-no-run-without-args] !reached(BuildList_1) || ret(BuildList_1, 1) != nil ==> $nrun == at(BuildList_1, $nrun) && $ncb == at(BuildList_1, $ncb)
@@ -235,6 +275,7 @@ package dig
 //@        && $evKind[at(BuildList_1, $ev) + 2] == evSince() && $evKind[at(BuildList_1, $ev) + 3] == evCallback()
 //@   ensures[C20:dec-since-start-of-run] ranWithCb ==> $evTime[at(BuildList_1, $ev) + 2] == $evTime[at(BuildList_1, $ev)]
 //@   ensures[C20:dec-runtime-is-that-duration] ranWithCb ==> $cbInfo[at(BuildList_1, $ncb)].Runtime == $evDur[at(BuildList_1, $ev) + 2]
+//@   site call dig.shallowCheckDependencies #1: assert[C04:dec-direct-deps-checked-in-own-scope,C12:dec-direct-deps-checked-in-own-scope] $arg0 == s && $arg1 == n.params
 //@   site call (dig.paramList).BuildList #1: assert[C12:dec-args-from-own-scope] is($arg0, ptr(Scope)) && as($arg0, ptr(Scope)) == n.s
 //@   site call (dig.paramList).BuildList #1: assert[C01:dec-builds-own-params] $recv == n.params
 //@   site call (dig.resultList).ExtractList #1: assert[C12:dec-stores-decorated-in-own-scope] is($arg0, ptr(Scope)) && as($arg0, ptr(Scope)) == n.s && $arg1
@@ -284,11 +325,11 @@ package dig
 //@   requires forall i int :: 0 <= i && i < len(values) ==> valid(values[i])
 //@   modifies @written
 //@   allocates
-//@   ensures[C07:error-first] err != nil ==> unchangedAll()
+//@   ensures[C07:error-first,C01:error-first] err != nil ==> unchangedAll()
 //@   ensures[C07:extract-list-writes-own-maps] wrValues(cw, decorated) && wrGroups(cw, decorated)
 //@   ensures[C13:returns-the-functions-error] err != nil ==> exists i int :: 0 <= i && i < len(values) && rl.resultIndexes[i] < 0 && err == rvIface(values[i])
 //@   ensures[C07:nil-errors-mean-success] (forall i int :: 0 <= i && i < len(values) && rl.resultIndexes[i] < 0 ==> !isErrorValue(rvIface(values[i]))) ==> err == nil
-//@   loop range values #1: invariant[C07:no-write-before-errors] unchangedAll()
+//@   loop range values #1: invariant[C07:no-write-before-errors,C01:no-write-before-errors] unchangedAll()
 //@   loop range values #1: invariant[C07:errors-seen-so-far] forall i int :: 0 <= i && i < $i && rl.resultIndexes[i] < 0 ==> !isErrorValue(rvIface(values[i]))
 //@   loop range values #2: invariant[C07:extract-loop-writes-own-maps] wrValues(cw, decorated) && wrGroups(cw, decorated)
 //@   loop range values #2: invariant[C09:extract-loop-new-keys-shaped] newKeysShaped(cw, decorated)
